@@ -453,6 +453,11 @@ def compare_case(c, real, model):
         return "FAIL-bad-op", "driver rejected the case"
     pre, exact, mo = model
     if real[0] == "zerodiv":
+        # numba's python error model raises on x / 0.0 where IEEE (the model at Float) yields inf or NaN: the model must
+        # at least show a non-finite or NaN component (or a false precondition); an all-finite reply means it never
+        # divided by zero, i.e. it computes something else
+        if pre and mo and all(m is not None and math.isfinite(m) for m in mo):
+            return "FAIL-zerodiv", f"real code raised ZeroDivisionError but the model returns finite values {mo}"
         return "skip-zerodiv", real[1]
     if real[0] == "assert":
         return ("ok-assert", real[1]) if not pre else ("FAIL-assert", f"real code raised ({real[1][:80]}) but pre_{name} holds")
